@@ -246,7 +246,10 @@ def _float_candidates(rng, dt, out_dt, n):
         r = rng.random()
         if r < 0.35:
             k = rng.choice(lims) + rng.randint(-30, 30)
-            h = rng.choice([0, 0.5, -0.5, 0.25, 0.75, 2.0 ** -20, -2.0 ** -20, 0.5 + 2.0 ** -20])
+            # ... including values a hair off a rounding tie (a float32 detour would land ON the tie)
+            h = rng.choice([0, 0.5, -0.5, 0.25, 0.75, 2.0 ** -20, -2.0 ** -20, 0.5 + 2.0 ** -20,
+                            0.5 - 2.0 ** -20, 0.5 - 2.0 ** -30, 0.5 + 2.0 ** -30, -0.5 + 2.0 ** -30,
+                            -0.5 - 2.0 ** -30, 0.5 - 2.0 ** -40])
             x = float(k) + h
         elif r < 0.55:
             k = rng.randint(0, 70)
